@@ -28,6 +28,25 @@ Theorem exec_implies_authorized :
 Proof. intros b s H. exact (exec_implies_authorized_query b s H). Qed.
 Print Assumptions exec_implies_authorized.
 
+(* The same per required privilege: for a non-administrator every single required privilege of
+   every statement is covered on ITS OWN target database - the database that privilege names,
+   otherwise the request's default database; no database is carried over from an earlier
+   privilege, source or statement of the request. *)
+Theorem exec_implies_each_privilege_covered :
+  forall bcrypt_ok salted, salted_injective salted ->
+  forall es secret salt cr hq po ss db reach st ex c',
+    handle bcrypt_ok salted true secret (node_after bcrypt_ok salted es) salt (RQuery cr hq po ss db reach) = ((st, ex), c') ->
+    ex <> 0 -> c_users (node_after bcrypt_ok salted es) <> [] ->
+    exists cd ui, In cd (carried cr) /\
+      cred_valid bcrypt_ok (c_users (node_after bcrypt_ok salted es)) secret cd = Some ui /\
+      (u_admin ui = true \/
+       forall s, In s ss -> exists ps, s_privs s = Some ps /\
+         forall p, In p ps ->
+           rp_admin p = false /\
+           grant_covers (lookup_priv (u_privs ui) (if is_empty (rp_name p) then db else rp_name p)) (rp_priv p) = true).
+Proof. intros b s H. exact (exec_each_privilege_covered b s H). Qed.
+Print Assumptions exec_implies_each_privilege_covered.
+
 (* Same for writes (/write and /api/v2/write): the points writer is called only for a carried,
    valid credential of an existing user who is administrator or holds WRITE/ALL on that
    database, and the database exists.  In particular never while no user exists. *)
